@@ -48,7 +48,7 @@ def height_for(surfs, alpha, u_spans):
 def cases(tier, seed):
     rng = np.random.default_rng(8000 + seed)
     out = []
-    n = 30 if tier == "quick" else 300
+    n = 30 if tier == "quick" else 900
     for k in range(n):
         surfs = rand_surfaces(rng, int(rng.choice([1, 1, 2])))
         alpha = float(np.round(rng.uniform(-5, 12), 3))
@@ -64,7 +64,7 @@ def cases(tier, seed):
             # the same height supplied through an input in another unit
             out.append(dict(kind="ref", surfaces=surfs, flow=flow, units=dict(height_agl=["ft", "km", "inch"][(k // 5) % 3]),
                             _cost=1 + np_ ** 2 / 100.0))
-    nl = 4 if tier == "quick" else 30
+    nl = 4 if tier == "quick" else 90
     for k in range(nl):
         surfs = rand_surfaces(rng, int(rng.choice([1, 2])))
         out.append(dict(kind="far", surfaces=surfs, flow=dict(alpha=float(np.round(rng.uniform(-5, 12), 3)), beta=0.0, v=50.0, rho=1.0)))
@@ -73,7 +73,7 @@ def cases(tier, seed):
         for bad in range(nsurf):
             for grp in ("aero", "as"):
                 out.append(dict(kind="reject", nsurf=nsurf, bad=bad, group=grp, other_ground=bool((nsurf + bad) % 2)))
-    na = 3 if tier == "quick" else 20
+    na = 3 if tier == "quick" else 60
     for k in range(na):
         surfs = rand_surfaces(rng, 1)
         surfs[0]["mesh"]["ny"] = max(3, surfs[0]["mesh"]["ny"])
